@@ -195,7 +195,7 @@ DEAD = Node(None)
 DEAD.alive = False
 
 
-def gen_history(rnd, nops, geo, strkind=None, ops_weights=None, obs_every=1, nul_ok=True):
+def gen_history(rnd, nops, geo, strkind=None, ops_weights=None, obs_every=1, nul_ok=True, small_ints=False):
     """returns (ops, exp): operation lines and the expected 'out' part of each (None = not predicted)"""
     ops, exp = [], []
     docs = [Doc() for _ in range(3)]
@@ -258,9 +258,10 @@ def gen_history(rnd, nops, geo, strkind=None, ops_weights=None, obs_every=1, nul
         if k == "bool":
             return k, rnd.choice("01")
         if k == "i":
-            return k, str(rnd.choice([0, -1, 5, 2147483647, 2147483648, -2147483648, -2147483649, 9223372036854775807, -9223372036854775808]))
+            # small_ints: builds without 64-bit integer storage (ARDUINOJSON_USE_LONG_LONG=0) agree with the default model on 32-bit values only
+            return k, str(rnd.choice([0, -1, 5, 2147483647, -2147483648] if small_ints else [0, -1, 5, 2147483647, 2147483648, -2147483648, -2147483649, 9223372036854775807, -9223372036854775808]))
         if k == "u":
-            return k, str(rnd.choice([0, 1, 4294967295, 4294967296, 18446744073709551615]))
+            return k, str(rnd.choice([0, 1, 4294967295] if small_ints else [0, 1, 4294967295, 4294967296, 18446744073709551615]))
         if k == "i8":
             return k, str(rnd.choice([-128, -1, 0, 127]))
         if k == "u16":
